@@ -767,6 +767,17 @@ fn drive_pc(a: &Args, tr: &mut Tracer, per_subject: &mut serde_json::Map<String,
                                 let a0 = *rng.pick(&[0, p - 2, p, 2 * p - 1, ra]) % size;
                                 let l = *rng.pick(&[1u64, 5, p, p + 3, 2 * p, 40]);
                                 let b0 = (a0 + l).min(size);
+                                // half of the time the range is read first (so that its pages are cached when the file
+                                // changes underneath) and read again right after the invalidation: the staleness clause
+                                let verify = rng.chance(1, 2) && budget > 2 * ((b0 - a0) as usize) + 64 && (b0 - a0) as usize <= 2 * PAGE_SIZE + 8;
+                                let mut pre: Vec<Value> = vec![];
+                                if verify {
+                                    let len = (b0 - a0) as usize;
+                                    if let Ok((d, _)) = pc.read(api, fid, a0, len) {
+                                        budget = budget.saturating_sub(d.len());
+                                        pre.push(json!({"op":"read","api":api,"f":f,"off":a0,"len":len,"ok":true,"r":bytes_json(&d)}));
+                                    }
+                                }
                                 gen += 1;
                                 let data: Vec<u8> = (a0..b0).map(|i| pattern(gen, i)).collect();
                                 let mut fh = std::fs::OpenOptions::new().write(true).open(&files[fi].path).expect("reopen file");
@@ -777,7 +788,9 @@ fn drive_pc(a: &Args, tr: &mut Tracer, per_subject: &mut serde_json::Map<String,
                                 if held.as_ref().map_or(false, |h| h.1 == f) {
                                     held = None;
                                 }
-                                let mut evs = vec![json!({"op":"rewrite","f":f,"a":a0,"b":b0,"gen":gen})];
+                                let mut evs = pre;
+                                evs.push(json!({"op":"rewrite","f":f,"a":a0,"b":b0,"gen":gen}));
+                                let mut invalidated = true;
                                 match rng.below(10) {
                                     0..=5 => evs.push(json!({"op":"invalidate_range","f":f,"off":a0,"len":b0 - a0,"ok":pc.invalidate_range(fid, a0, (b0 - a0) as usize)})),
                                     6..=7 => {
@@ -785,7 +798,14 @@ fn drive_pc(a: &Args, tr: &mut Tracer, per_subject: &mut serde_json::Map<String,
                                             evs.push(json!({"op":"invalidate_page","f":f,"page":pg,"ok":pc.invalidate_page(fid, pg as u32)}));
                                         }
                                     }
-                                    _ => {} // left stale for now: reads may see either version until an invalidation
+                                    _ => invalidated = false, // left stale for now: reads may see either version until an invalidation
+                                }
+                                if verify && invalidated {
+                                    let len = (b0 - a0) as usize;
+                                    if let Ok((d, _)) = pc.read(api, fid, a0, len) {
+                                        budget = budget.saturating_sub(d.len());
+                                        evs.push(json!({"op":"read","api":api,"f":f,"off":a0,"len":len,"ok":true,"r":bytes_json(&d)}));
+                                    }
                                 }
                                 evs
                             }
